@@ -93,15 +93,96 @@ def pos_range(position) -> list[int]:
     return [0, 0, 0, 0]
 
 
+def _tags(x):
+    t = getattr(x, "tags", None)
+    return None if t is None else sorted(int(v) for v in t)
+
+
 def canon_symbol(s) -> str:
+    """every attribute of a returned `DocumentSymbol` a client reads, children included: name, kind, both ranges, detail,
+    `deprecated` (None = attribute absent), `tags` (None = absent; SymbolTag.Deprecated = 1)"""
     def c(x):
         return [x.name, int(x.kind), rng(x.range), rng(x.selection_range), x.detail, bool(x.deprecated) if x.deprecated is not None else None,
-                [c(k) for k in (x.children or [])]]
+                _tags(x), [c(k) for k in (x.children or [])]]
     return json.dumps(c(s))
 
 
-def canon_info(name, kind, range4, deprecated, container) -> str:
-    return json.dumps([name, int(kind), range4, bool(deprecated), container])
+def canon_info(name, kind, range4, deprecated, container, tags=None) -> str:
+    return json.dumps([name, int(kind), range4, bool(deprecated) if deprecated is not None else None, tags, container])
+
+
+# ---------------------------------------------------------------------------------------------
+# what the symbol requests have to answer for one declaration of the current text: stated here from the front end's AST
+# (attributes `primitive`, `name`, `position`, `deprecated`, `fields` / `items` / `flags` / `error_codes` / `methods` / `parameters`),
+# NOT through `pydjinni_language_server.util` — the functions under test never produce their own expectation.
+# ---------------------------------------------------------------------------------------------
+
+def is_deprecated(decl) -> bool:
+    """the front end stores `True` for a bare `@deprecated` and the reason text for `@deprecated <reason>`; `False` = not deprecated"""
+    d = decl.deprecated
+    return d is True or (isinstance(d, str))
+
+
+def expected_symbol(n) -> list:
+    """the hierarchical `DocumentSymbol` of a declaration. Types, interface methods and named functions carry `deprecated`
+    (both forms of `@deprecated`); fields, enum items, flags, error codes and parameters are listed WITHOUT a `deprecated`
+    attribute (that is what the server documents/does for them, whatever their own comment says); properties of an interface
+    are not listed; nothing carries `tags`."""
+    from lsprotocol.types import SymbolKind as K
+
+    def sym(x, kind, detail=None, deprecated=None, children=()):
+        r = pos_range(x.position)
+        return [x.name, int(kind), r, r, detail, deprecated, None, list(children)]
+
+    def params(ps):
+        return [sym(p, K.Variable, p.type_ref.name) for p in ps]
+
+    if not hasattr(n, "primitive"):                      # a namespace: no comment model, children are declarations
+        if hasattr(n, "children"):
+            return sym(n, K.Namespace, children=[expected_symbol(c) for c in n.children])
+        return sym(n, K.Null)
+    p = str(n.primitive)
+    dep = is_deprecated(n)
+    if p == "interface":
+        return sym(n, K.Interface, "interface", dep, [
+            sym(m, K.Method, m.return_type_ref.name if m.return_type_ref else None, is_deprecated(m), params(m.parameters)) for m in n.methods])
+    if p == "record":
+        return sym(n, K.Class, "record", dep, [sym(f, K.Field, f.type_ref.name) for f in n.fields])
+    if p == "enum":
+        return sym(n, K.Enum, "enum", dep, [sym(i, K.EnumMember) for i in n.items])
+    if p == "flags":
+        return sym(n, K.Enum, "flags", dep, [sym(f, K.EnumMember, "all" if f.all else "none" if f.none else None) for f in n.flags])
+    if p == "error":
+        return sym(n, K.Class, "error", dep, [sym(c, K.Field, children=params(c.parameters)) for c in n.error_codes])
+    if p == "function":
+        return sym(n, K.Function, n.return_type_ref.name if n.return_type_ref else None, dep, params(n.parameters))
+    return sym(n, expected_flat_kind(n))
+
+
+def expected_flat_kind(n) -> int:
+    from lsprotocol.types import SymbolKind as K
+    p = str(getattr(n, "primitive", ""))
+    return int({"interface": K.Interface, "record": K.Struct, "error": K.Struct, "function": K.Function, "enum": K.Enum, "flags": K.Enum}.get(p, K.Null))
+
+
+def deprecation_census(ast) -> dict:
+    """coverage: (kind of declaration, form of its deprecation in the front end's result) over an AST"""
+    out = {}
+
+    def form(x):
+        d = getattr(x, "deprecated", None)
+        return "n/a" if d is None else "reason" if isinstance(d, str) else "bare" if d is True else "none"
+
+    def walk(x, kind):
+        k = kind + ":" + form(x)
+        out[k] = out.get(k, 0) + 1
+        for attr, ck in (("children", None), ("fields", "field"), ("items", "item"), ("flags", "flag"), ("error_codes", "error-code"),
+                         ("methods", "method"), ("properties", "property"), ("parameters", "parameter")):
+            for c in getattr(x, attr, None) or []:
+                walk(c, ck or (str(c.primitive) if hasattr(c, "primitive") else "namespace"))
+    for a in ast:
+        walk(a, str(a.primitive) if hasattr(a, "primitive") else "namespace")
+    return out
 
 
 def canon_answer(r):
@@ -118,7 +199,7 @@ def canon_answer(r):
             if hasattr(x, "selection_range"):
                 out.append(canon_symbol(x))
             else:
-                out.append(canon_info(x.name, x.kind, rng(x.location.range), x.deprecated, x.container_name))
+                out.append(canon_info(x.name, x.kind, rng(x.location.range), x.deprecated, x.container_name, _tags(x)))
         return {"a": "symbols", "l": out}
     return {"a": "other", "repr": repr(r)[:200]}
 
@@ -134,7 +215,6 @@ def oracle(uri: str, text: str) -> dict:
     from pydjinni.parser.ast import Function
     from pydjinni.parser.base_models import BaseType, BaseExternalType
     from pydjinni_language_server.text_document_path import TextDocumentPath
-    from pydjinni_language_server.util import to_document_symbol, map_kind
 
     doc = TextDocument(uri, source=text)
 
@@ -160,12 +240,12 @@ def oracle(uri: str, text: str) -> dict:
     def node(n, with_info):
         info = None
         if with_info and not (isinstance(n, Function) and n.anonymous):
-            info = canon_info(n.name, map_kind(n), pos_range(n.position), n.deprecated != False, ".".join(n.namespace))  # noqa: E712
-        return {"fileUri": n.position.file.as_uri(), "sym": canon_symbol(to_document_symbol(n)) if not with_info else "", "info": info}
+            info = canon_info(n.name, expected_flat_kind(n), pos_range(n.position), is_deprecated(n), ".".join(n.namespace))
+        return {"fileUri": n.position.file.as_uri(), "sym": json.dumps(expected_symbol(n)) if not with_info else "", "info": info}
 
     def parts(defs, refs, imports, ast):
         return {"defs": [node(d, True) for d in defs], "refs": [ref(r) for r in refs], "imports": [fref(f) for f in imports],
-                "ast": [node(a, False) for a in ast]}
+                "ast": [node(a, False) for a in ast], "census": deprecation_census([a for a in ast if own(a.position)])}
 
     buffer_ok = TextDocumentPath(doc).read_text() == text     # the front end must be given the editor buffer
     r = _oracle_parse(doc, parts, own)
@@ -181,8 +261,12 @@ def _oracle_parse(doc, parts, own):
         g = fresh_context().parse(TextDocumentPath(doc))
         return {"k": "ok", **parts(g.defs, g.refs, g.file_imports, g.ast)}
     except Parser.ParsingExceptionList as e:
+        # a declaration the parser could not build (junk between declarations, a keyword as a name, ...) is `None` in the recovered
+        # tree it hands out with the error list; the server rebuilds its caches from the declarations that exist
+        # (before fix "None in the recovered tree" it dereferenced every entry: nothing published, stale caches)
         return {"k": "errs", "items": [[own(x.position), pos_range(x.position)] for x in e.items],
-                **parts(e.type_decls, e.type_refs, e.file_imports, e.ast)}
+                **parts(e.type_decls, e.type_refs, e.file_imports, [a for a in e.ast if a is not None]),
+                "recovered_none": sum(1 for a in e.ast if a is None)}
     except ConfigurationException:
         return {"k": "cfg"}
     except ApplicationException as e:
